@@ -151,8 +151,8 @@ def check(out, form, v):
                 attr = xform.attrs(binds[0]).get(kind)
                 tid = xform.itext_id(attr)
                 if mode == "inline":
-                    # attribute-carried text: TAB/LF/CR are read back as spaces (XML attribute-value normalisation)
-                    if attr != val.replace("\t", " ").replace("\n", " ").replace("\r", " "):
+                    # attribute-carried text: TAB/LF/CR must be written as character references to survive a parser
+                    if attr != val:
                         out.fail("C08.text", f"{kind}:inline", f"{n.path} {kind}: expected {val!r}, got {attr!r}")
                     continue
                 if tid is None:
